@@ -101,7 +101,10 @@ def run (c : Case) : String :=
     match c.getD "op" "?" with
     | "ToChannel" => s!"res {c.id} {toChannelRes (runPipe { cap := cap, toChan := true, hot := hot } raw cut)}"
     | "ObserveOn" => s!"res {c.id} {detachRes (runPipe { cap := cap, hot := hot } raw cut)}"
-    | "SubscribeOn" => s!"res {c.id} {detachRes (runPipe { cap := cap, hot := hot } raw cut (finalUnsub := false))}"
+    | "SubscribeOn" =>
+      -- Subscribe returns only when the stream has ended: the harness runs terminated scripts only
+      if ending raw == .never || cut.isSome then s!"res {c.id} unsupported"
+      else s!"res {c.id} {detachRes (runPipe { cap := cap, hot := hot } raw cut (finalUnsub := false))}"
     | "FromChannel" =>
       let s := runFrom cap sub (valsOf raw) (c.getD "close" "1" == "1") cut
       s!"res {c.id} trace={renderTrace s.out} donecloses={s.doneCloses} leak={match s.cpc with | .exited => 0 | _ => 1}"
